@@ -128,6 +128,7 @@ func famSesReent(t *testing.T, r *Rec) {
 				switch {
 				case act == "send" && ev != "close" && !reacted:
 					r.Violate("C18", "C18/reentrant-listener/send-lost/"+ev+"/"+tr, "the message a '"+ev+"' listener sent never reached the client although the session stayed open and the client kept reading", lines)
+					r.Violate("C01", "C01/not-delivered/sent-from-listener/"+ev+"/"+tr, "a message accepted by Send (called from a '"+ev+"' listener) never reached the client although the session stayed open and the client kept reading", lines)
 				case act != "send" && (state != "closed" || closes != 1):
 					r.Violate("C18", "C18/reentrant-listener/close-ineffective/"+ev+"/"+act+"/"+tr, fmt.Sprintf("a '%s' listener called %s: session is %s with %d close events", ev, act, state, closes), lines)
 				}
